@@ -137,6 +137,8 @@ func (*c08) Oracle(ci, oi any) []hx.Violation {
 		return c08OracleSplit(c, obs)
 	case "sort", "render":
 		return c08OracleSort(c, obs)
+	case "full":
+		return c08OracleFull(c, obs)
 	case "uninstall":
 		return c08OracleUninstall(c, obs)
 	case "barrier":
